@@ -22,6 +22,9 @@ HAZARD = True
 
 def split_cases(rng, tier):
     """data path: every instruction executed once through behavior() and once through the split functions"""
+    for prog, regs in rvgen.long_programs(rng, tier):          # thousands of cycles, with and without caches
+        yield rvgen.long_case(prog, regs, "five", HAZARD, suite="sim-five")
+        yield rvgen.long_case(prog, regs, "five", HAZARD, dspec=rvgen.penalty_cache_spec(rng, "d"), ispec=rvgen.penalty_cache_spec(rng, "i"), suite="sim-five")
     for prog, regs in rvgen.fault_schedule_programs():      # faults in every pipeline situation: same fault, same state in both modes
         lines = rvgen.header("five", HAZARD, "-", "-", prog, regs, []) + ["sim.snap"]
         for _ in range(14):
@@ -102,6 +105,8 @@ def measure(c, stats):
 def run_mode(c, mode, hazard, limit=4000, nocache=False, noicache=False):
     """Run the case's program on a fresh real simulation in the given mode until done / fault / limit.
     Returns dict(final snapshot fields, retire order, fault, cycles)."""
+    if c.meta.get("long"):
+        limit = max(limit, 30000)          # the long-run suite needs its thousands of steps
     im = implmod.Impl()
     hdr = [l for l in c.lines if l.split()[0] in ("sim.prog", "sim.load", "sim.reg", "sim.poke")]
     new = next(l for l in c.lines if l.startswith("sim.new")).split()
